@@ -443,6 +443,7 @@ class Gen:
     def __init__(self, rng, big=0.08, huge=0.0, odd_ints=False, customs=(), rich=True, bad_text=0.0):
         self.r = rng
         self.mega = 0.0  # share of the "huge" lengths that are about 1 MiB
+        self.invalid_known = False  # byzantine peers only: the paged-results control with a missing / malformed value
         self.odd_known = False  # set by byzantine peers only: known value-less controls carrying a value
         self.bad_text = bad_text  # probability of a str that cannot be encoded (lone surrogate): the send call must fail cleanly
         self.big = big
@@ -516,6 +517,9 @@ class Gen:
         crit = r.random() < 0.4
         if k == 0 or k == 4:
             return {"t": "Control", "type": r.choice(GENERIC_OIDS), "critical": crit, "value": self.opt_blob(0.4)}
+        if self.invalid_known and r.random() < 0.12:
+            # the paged-results control with an absent, empty or malformed value: an invalid message
+            return {"t": "Control", "type": "1.2.840.113556.1.4.319", "critical": crit, "value": r.choice([None, None, "", "3000", "30050201"])}
         if self.odd_known and r.random() < 0.25:
             # a value-less known control that a (foreign) peer nevertheless sends with a value
             return {"t": "Control", "type": r.choice(["1.2.840.113556.1.4.417", "1.2.840.113556.1.4.2065"]), "critical": crit,
